@@ -15,11 +15,12 @@
     exactly when the tableau measurement does;
   * `resetChannel_det` : on a state in which the qubit has a definite Z value the reset channel is `reset_z`.
 
-  Everything here is noise-free and shared between C01 (compile loop) and C06 (channels).
+  Everything here is noise-free and shared between C01 (compile loop) and C06 (channels).  (Imports neither
+  Proofs/Circuit.lean nor Proofs/Noise.lean — the two cannot be imported together, both declare `Graphiq.Tab.norm_row`.)
 -/
 import GraphiqModel.Proofs.HilbertTab
 import GraphiqModel.Proofs.HilbertKron
-import GraphiqModel.Proofs.Circuit
+import GraphiqModel.Model.Circuit
 namespace Graphiq
 namespace Hilbert
 open Matrix PRow
@@ -71,14 +72,14 @@ theorem tabRho_norm (t : Tab) : tabRho t.n t.norm = tabRho t.n t := by
   apply rhoTo_congr
   intro i hi
   have hi' : i < t.n := hi
-  have h := Tab.norm_row t (i + t.n) (by omega)
+  have h := Tab.tnorm_row t (i + t.n) (by omega)
   exact ⟨h.1, h.2.1, rfl⟩
 
 theorem norm_stabReal (t : Tab) (hr : t.StabReal) : t.norm.StabReal := by
   intro i h1 h2
   have hn : t.norm.n = t.n := rfl
   rw [hn] at h1 h2
-  rw [(Tab.norm_row t i h2).2.2]
+  rw [(Tab.tnorm_row t i h2).2.2]
   exact hr i h1 h2
 
 /-- **`apply_unitary` with a gate's unitary is the tableau gate.** -/
